@@ -61,6 +61,11 @@ def cases(tier, seed):
                         continue
                     for cont in (False, True):
                         out.append({"kind": "inject", "site": site, "solver": solver, "system": sysk, "step": sname, "continue": cont, "rep": r})
+                if sysk == "contact" and site != "cic.fp":
+                    # the failing solve sits in the step in which the ball hits the ground (contact forces change within the
+                    # step, so further solves follow the failed one inside the same step)
+                    for cont in (False, True):
+                        out.append({"kind": "inject", "site": site, "solver": solver, "system": sysk, "step": "impact", "continue": cont, "rep": r})
                 if site == "statics.newton":
                     # the very first solve (load step 0, the unloaded state) fails: nothing converged, nothing may be returned
                     for cont in (False, True):
@@ -69,6 +74,8 @@ def cases(tier, seed):
             for how in ("newton_max_iter", "fixed_point_max_iter"):
                 for cont in (False, True):
                     out.append({"kind": "natural", "solver": solver, "how": how, "continue": cont, "system": "contact" if solver != "Newton" else "static", "rep": r})
+        for cont in (False, True):
+            out.append({"kind": "natural", "solver": "Newton", "how": "nan_load", "continue": cont, "system": "static", "rep": r})
         for solver in ("ScipyIVP", "ScipyDAE"):
             out.append({"kind": "unsupported_contacts", "solver": solver, "rep": r})
             out.append({"kind": "nan_rhs", "solver": solver, "rep": r})
@@ -111,7 +118,7 @@ def _contact(rng, resting=True):
     return S
 
 
-def _static(rng):
+def _static(rng, nan_after=None):
     from cardillo import System
     from cardillo.discrete import RigidBody
     from cardillo.forces import Force
@@ -125,7 +132,10 @@ def _static(rng):
         f = Frame(r_OP=np.array(p), name=f"anchor{k}")
         tpi = TwoPointInteraction(f, body, B_r_CP2=0.1 * np.eye(3)[k % 3])
         S.add(f, Spring(tpi, float(rng.uniform(20, 60)), l_ref=0.8, compliance_form=False, name=f"spring{k}"))
-    S.add(body, Force(lambda t: t * np.array([0, 0, -9.81 * m]), body, name="grav"))
+    if nan_after is None:
+        S.add(body, Force(lambda t: t * np.array([0, 0, -9.81 * m]), body, name="grav"))
+    else:
+        S.add(body, Force(lambda t: (t if t <= nan_after else float("nan")) * np.array([0, 0, -9.81 * m]), body, name="grav"))
     S.assemble()
     return S
 
@@ -272,7 +282,10 @@ def run_case(spec, ctx):
                     vh.plan[site] = {k}
                     res = _run(ctx, lambda: sv.Riks(S, la_arc0=0.05, la_arc_span=[0.0, 1.0], iter_goal=3, options=opts), det, None, 1.0, cont, None, injected_site=site)
             else:
-                S = _smooth(rng) if sysk == "smooth" else _contact(rng, resting=(site not in ("moreau.fp",) or True))
+                impact = spec["step"] == "impact"
+                if impact:
+                    k = 2                                            # _contact(resting=False) closes during the third step
+                S = _smooth(rng) if sysk == "smooth" else _contact(rng, resting=not impact)
                 if sysk == "contact":
                     S.assemble()
                 vh.reset()
@@ -291,12 +304,14 @@ def run_case(spec, ctx):
         kw = {"continue_with_unconverged": cont}
         if how == "newton_max_iter":
             kw.update(newton_max_iter=1, newton_atol=1e-14, newton_rtol=1e-14)
+        elif how == "nan_load":
+            pass        # default options; the load curve is undefined (NaN) beyond half of the load range
         else:
             kw.update(fixed_point_max_iter=1, fixed_point_atol=1e-14, fixed_point_rtol=1e-14)
         with gen.quiet():
             if solver == "Newton":
-                S = _static(rng)
-                res = _run(ctx, lambda: sv.Newton(S, n_load_steps=4, verbose=False, options=SolverOptions(**kw)), det, None, 0.25, cont, 5)
+                S = _static(rng, nan_after=0.55 if how == "nan_load" else None)
+                res = _run(ctx, lambda: sv.Newton(S, n_load_steps=4, verbose=False, options=SolverOptions(**kw)), det, 0.75 if how == "nan_load" else None, 0.25, cont, 5)
             else:
                 S = _contact(rng, resting=bool(rng.random() < 0.5))
                 S.assemble()
